@@ -35,6 +35,10 @@ def main():
         r = sh(["git", "-C", "/repo", "worktree", "add", "-q", "--detach", wt, "HEAD"])
         assert r.returncode == 0, r.stderr
         r = sh(["git", "-C", wt, "apply", os.path.join(src, "patch.diff")])
+        if r.returncode != 0:
+            # the repository moved on since the change was made (a later fix touched the same function): three-way merge
+            r = sh(["git", "-C", wt, "apply", "--3way", os.path.join(src, "patch.diff")])
+            meta["applied_with_3way"] = r.returncode == 0
         meta["patch_applies"] = r.returncode == 0
         if r.returncode != 0:
             print("patch does not apply:", r.stderr[:500])
